@@ -604,7 +604,7 @@ def type_ir_tokens_fn(ctx, rid):
 
 
 def CA(x, fl):
-    return "then((let v1::Some($)=CompositeFieldIR::compact_attr(%s)&&%s),CompositeFieldIR::compact_attr(%s)@v1::Some.0)" % (x, fl, x)
+    return "if(%s){CompositeFieldIR::compact_attr(%s)}else{v1::None}" % (fl, x)
 
 
 def item_templates(ctx, rid):
